@@ -93,6 +93,7 @@ impl LookaheadDFA {
 
             // Filter the transitions with the matching from-state
             let mut any_matching_found = false;
+            let mut transition_taken = false;
             for i in 0..self.transitions.len() {
                 let current_transition = &self.transitions[i];
 
@@ -134,6 +135,7 @@ impl LookaheadDFA {
                             last_prod_num = prod_num;
                             trace!("State {} accepts", state);
                         }
+                        transition_taken = true;
                         break;
                     }
                     Ordering::Greater => {
@@ -142,6 +144,13 @@ impl LookaheadDFA {
                     }
                     _ => (),
                 }
+            }
+            if !transition_taken {
+                // There is no transition for the current lookahead token in the current state.
+                // Stop here: an unmatched token must never be skipped over while reading
+                // lookahead, otherwise a production could be predicted whose lookahead strings
+                // do not match the upcoming tokens.
+                break;
             }
         }
         if prod_num > INVALID_PROD {
